@@ -223,11 +223,16 @@ def curVersionScan : Bool → List Str → Option Str
 
 def curVersionLine (text : Str) : Option Str := curVersionScan false (pySplitlines text)
 
-/-- `_parse_current_version_default_pattern` -/
+/-- `.strip("'\" ")` -/
+def stripQuotes (s : Str) : Str := stripChars "'\" ".toList s
+
+/-- `_parse_current_version_default_pattern`: the raw values are stripped of quotes and blanks
+    before the replacement, so the pattern keeps the quoting of the current_version line itself
+    (config.py after the C18 repair) -/
 def parseCurrentVersionDefaultPattern (currentVersion versionPattern text : Str) : Except CfgErr Str :=
   match curVersionLine text with
   | .none => .error .noVersionLine
-  | some line => .ok (pyReplace currentVersion versionPattern line)
+  | some line => .ok (pyReplace (stripQuotes currentVersion) (stripQuotes versionPattern) line)
 
 def rawStr (k : Str) (opts : List (Str × RawVal)) : Except CfgErr Str :=
   match lookup k opts with
@@ -277,8 +282,6 @@ structure EffectiveConfig where
   filePatterns : FilePatterns
   deriving DecidableEq, Repr
 
-/-- `.strip("'\" ")` -/
-def stripQuotes (s : Str) : Str := stripChars "'\" ".toList s
 
 /-- `raw_cfg.get(key, default).strip("'\" ")` -/
 def strOptDefault (k : Str) (dflt : Str) (opts : List (Str × RawVal)) : Except CfgErr Str :=
